@@ -1,0 +1,15 @@
+//go:build verif
+
+package dns_naming
+
+import "github.com/irai/packet"
+
+// VerifNew returns a DNSHandler that does not bind any multicast socket.
+// Compiled only with -tags verif.
+func VerifNew(session *packet.Session) *DNSHandler {
+	h := new(DNSHandler)
+	h.session = session
+	h.DNSTable = make(map[string]packet.DNSEntry, 256)
+	h.mdnsCache = make(map[string]cache)
+	return h
+}
